@@ -6,6 +6,7 @@ import (
 	"encoding/json"
 	"fmt"
 	"os"
+	"strings"
 	"testing"
 
 	"pgregory.net/rapid"
@@ -74,14 +75,22 @@ func matchAggregates(res *mk.Result, out *ref.Output) (msg string, legacyOnly bo
 	if len(res.Rows) != len(out.Rows) {
 		return fmt.Sprintf("%d result rows, expected %d (one per distinct combination of grouping values)\n  returned: %v\n  expected: %v", len(res.Rows), len(out.Rows), trunc(multiset(res.Rows)), expectedStrings(out)), false
 	}
-	used := make([]bool, len(res.Rows))
+	// With LIMIT/OFFSET and no ORDER BY any window over the aggregated rows is a
+	// correct answer: the returned rows must be distinct members of the full
+	// aggregated result (and, checked above, as many as the window keeps).
+	pool := out.Rows
+	windowed := out.Limit >= 0 || out.Offset > 0
+	if windowed {
+		pool = out.Full
+	}
+	used := make([]bool, len(pool))
 	usedLegacy := false
-	for _, want := range out.Rows {
+	for _, got := range res.Rows {
 		found := -1
 		legacyHere := false
 		for pass := 0; pass < 2 && found < 0; pass++ {
-			for ri, got := range res.Rows {
-				if used[ri] {
+			for wi, want := range pool {
+				if used[wi] {
 					continue
 				}
 				ok, leg := true, false
@@ -103,13 +112,17 @@ func matchAggregates(res *mk.Result, out *ref.Output) (msg string, legacyOnly bo
 					}
 				}
 				if ok {
-					found, legacyHere = ri, leg
+					found, legacyHere = wi, leg
 					break
 				}
 			}
 		}
 		if found < 0 {
-			return fmt.Sprintf("no returned row matches the expected group %s\n  returned: %v\n  expected: %v", expectedRow(want), trunc(multiset(res.Rows)), expectedStrings(out)), false
+			what := "no expected group matches the returned row"
+			if windowed {
+				what = "the returned row is not (or not that often) among the aggregated rows the LIMIT/OFFSET window is taken from:"
+			}
+			return fmt.Sprintf("%s %s\n  returned: %v\n  expected: %v", what, model.RowString(got), trunc(multiset(res.Rows)), expectedStringsOf(pool)), false
 		}
 		used[found] = true
 		usedLegacy = usedLegacy || legacyHere
@@ -135,9 +148,11 @@ func expectedRow(r []interface{}) string {
 	return s + ")"
 }
 
-func expectedStrings(out *ref.Output) []string {
+func expectedStrings(out *ref.Output) []string { return expectedStringsOf(out.Rows) }
+
+func expectedStringsOf(rows [][]interface{}) []string {
 	var s []string
-	for _, r := range out.Rows {
+	for _, r := range rows {
 		s = append(s, expectedRow(r))
 	}
 	return trunc(s)
@@ -184,6 +199,15 @@ func c07Labels(q gen.Select, out *ref.Output) (bool, []string) {
 	}
 	if len(q.Joins) > 0 {
 		labels = append(labels, "on-join")
+	}
+	if q.Limit != nil || q.Offset != nil {
+		labels = append(labels, "with-limit-or-offset")
+		if len(out.Rows) < len(out.Full) {
+			labels = append(labels, "window-cuts-aggregated-rows")
+		}
+	}
+	if q.AmbigOK {
+		labels = append(labels, "alias-shadows-grouping-column")
 	}
 	if len(q.GroupBy) == 0 {
 		labels = append(labels, "no-group-by")
@@ -293,6 +317,11 @@ func c07Run(c c07Case, st *vlib.Stats) string {
 			}
 			// (chdir matters only for opening files; both engines are already open)
 			res, err := e.Query(cq.SQL)
+			if err != nil && cq.Q.AmbigOK && strings.Contains(err.Error(), "ambiguous") {
+				// an alias shadows another grouping column's name: refusing is allowed, a wrong answer is not
+				st.Label("refused-as-ambiguous(alias shadows a grouping column)", 1)
+				continue
+			}
 			if err != nil {
 				return fmt.Sprintf("query %d is valid but failed (%s row order): %v\n  %q", qi, []string{"original", "permuted"}[side], err, cq.SQL)
 			}
